@@ -274,6 +274,7 @@ func main() {
 	factsShared(*repo)
 	factsJailBody(arch)
 	factsUnpackDecision(arch)
+	factsUnpackLayerDecision(arch)
 	factsOrder(arch)
 	factsSwitchRoot(*repo)
 	emit("")
